@@ -4,7 +4,7 @@ from __future__ import annotations
 from typing import Any, Dict, List
 
 from ..sim.gen import profile
-from .simprop import (DRAIN, SimEngine, blocked_spawners_family, close_overlap_family, flush_raises_family, name_reuse_family, overlap_family, sweep_space,
+from .simprop import (DRAIN, SimEngine, blocked_spawners_family, close_overlap_family, flush_raises_family, name_reuse_family, rejected_then_cancel_family, overlap_family, sweep_space,
                       two_pools_family, worker_in_flush_family)
 
 FIN = [1, 1, 2, 2, 3, 4, 0, None]
@@ -341,7 +341,8 @@ _BSS = ("blocked-spawners family on SimpleTaskPool followed by stop(1), stop(2)"
         lambda t: blocked_spawners_family(1, tail=[{"op": "stop", "pool": 0, "n": 1, "place": "inline"}, {"op": "tick", "k": 1}, {"op": "stop", "pool": 0, "n": 2, "place": "inline"},
                                                    {"op": "settle"}], classes=("SimpleTaskPool",)))
 _FX = ("flush-raises family (flush() raising over a failed task while a cancelled one sits in its callback, ids probed afterwards)", lambda t: flush_raises_family(_thin(t, 3)))
-FAMILIES = {"C02": [_BS], "C03": [_TP, _FX], "C04": [_NR, _BS], "C06": [_WF, _TP, _FR, _FX], "C13": [_FX], "C07": [_NR, _WF], "C10": [_NR], "C11": [_BS, _TP], "C14": [_BSS]}
+_RC = ("rejected-then-cancel family (a request rejected for each cause while a spawner waits, then the group cancelled or not)", lambda t: rejected_then_cancel_family(_thin(t, 2)))
+FAMILIES = {"C09": [_RC], "C02": [_BS], "C03": [_TP, _FX], "C04": [_NR, _BS], "C06": [_WF, _TP, _FR, _FX], "C13": [_FX], "C07": [_NR, _WF], "C10": [_NR], "C11": [_BS, _TP], "C14": [_BSS]}
 
 
 def make(pid: str) -> SimEngine:
